@@ -399,7 +399,8 @@ def run(tier):
     sample = [(it, res) for i, (it, res) in enumerate(zip(replays, results[:len(replays)])) if i % step == 0 and "diffs" not in it]
     v1 = validate_traces(chk, to_trace, "replay")
     for (it, res), v in zip(to_trace, v1):
-        if v["conform"] and not v["dev"] and not v["failed"]:
+        alt = any(o["k"] == "choice" for o in it["spec"]["obs"])       # the spec allowed the engine a choice: the real one took the other branch
+        if v["conform"] and not v["dev"] and not v["failed"] and not alt:
             unexplained.append("replay differs from the TLC behaviour but its trace is accepted: %s :: %s" % (describe(it, res), it["diffs"][:2]))
     judge(chk, to_trace, v1, unexplained)
     allr = sample + rruns
